@@ -106,6 +106,14 @@ func TestC18Copy(t *testing.T) {
 				ops = append(ops, "add-attr", "add-rel", "remove-field")
 			}
 
+			// Adding or removing fields of its type, through the Type value or
+			// the maps the resource hands out (any implementation).
+			ops = append(ops, "type-remove-attr", "type-remove-rel", "attrs-map-delete")
+			if _, isSoft := x.(*jsonapi.SoftResource); isSoft {
+				// (a wrapped struct cannot grow a field it has no struct field for)
+				ops = append(ops, "type-add-attr")
+			}
+
 			op := rapid.SampledFrom(ops).Draw(t, "op")
 			what := op + " on the " + xname
 
@@ -166,6 +174,17 @@ func TestC18Copy(t *testing.T) {
 							inPlace++
 						}
 					}
+				case "type-add-attr":
+					typ := x.GetType()
+					_ = typ.AddAttr(jsonapi.Attr{Name: fmt.Sprintf("viatype%d", i), Type: jsonapi.AttrTypeBool})
+				case "type-remove-attr":
+					typ := x.GetType()
+					typ.RemoveAttr(rapid.SampledFrom([]string{"by", "byn", "sn", "a0"}).Draw(t, "victim"))
+				case "type-remove-rel":
+					typ := x.GetType()
+					typ.RemoveRel(rapid.SampledFrom([]string{"m", "m2", "o"}).Draw(t, "victim"))
+				case "attrs-map-delete":
+					delete(x.Attrs(), rapid.SampledFrom([]string{"by", "byn", "sn", "a0"}).Draw(t, "victim"))
 				case "add-attr":
 					x.(*jsonapi.SoftResource).AddAttr(jsonapi.Attr{Name: fmt.Sprintf("new%d", i), Type: jsonapi.AttrTypeInt})
 				case "add-rel":
